@@ -1,5 +1,5 @@
 """C02 - accepted programs never go wrong (type soundness)."""
-from . import docex, machine
+from . import common, docex, machine
 
 replay_one = machine.replay_one
 
@@ -13,7 +13,8 @@ def run(chk):
                 "any-based composite target (assignment, parameter, return), any values with assertions that hold and "
                 "fail, every numeric/graphics/format built-in and the index/slice/repetition/range operators on nan, "
                 "infinities, 2^63, 2^31-1, negative and tiny arguments; exact oracle where the documentation defines the "
-                "outcome (typeof of every variable), 'never goes wrong' oracle elsewhere; non-trivial = distinct program")
+                "outcome (typeof of every variable), 'never goes wrong' oracle elsewhere; the rule-breaking programs of FamBreak, which must "
+                "never go wrong if the parser accepts them; non-trivial = distinct program")
     chk.exhaustive = True
     # two accepted programs outside the machine's bounds (they do not terminate in the model either):
     # they are replayed with the "never goes wrong" oracle only
@@ -27,7 +28,15 @@ def run(chk):
     # that point must be a prefix of the real run, which must not go wrong
     beyond = docex.corpus(chk, chk.tier, sound_only=True)
     chk.extra["corpus_programs_beyond_the_model"] = len(beyond)
-    machine.replay_family(chk, exact + sound + extra + beyond, deadline="60s")
+    # programs the specification calls ill-formed (one rule-breaking edit each, family FamBreak of C05): nothing is
+    # claimed here when the parser rejects them, but one that the parser accepts must still never go wrong
+    resb = common.run_tlc("FamBreak", "FamBreak.cfg", defines={"TIER": chk.tier}, timeout=900)
+    chk.add_tlc(resb, "FamBreak")
+    illformed = [{"id": "snd-ill-%d" % n, "stage": "run", "soundOnly": True, "mayReject": True, "inputs": ["input line"],
+                  "class": "ill-formed/%s@%s" % (c["rule"], c["site"]), "src": c["src"], "expect": {"effects": [], "result": []}}
+                 for n, c in enumerate(resb.cases) if not c["valid"] and not c["extra"]]
+    chk.extra["ill_formed_programs_run_if_accepted"] = len(illformed)
+    machine.replay_family(chk, exact + sound + extra + beyond + illformed, deadline="60s")
     chk.extra["exact_oracle_cases"] = len(exact)
     chk.extra["never_goes_wrong_only_cases"] = len(sound)
     chk.assumptions += [
